@@ -83,7 +83,8 @@ structure Lis where
   stream : Bool           -- ListenerConfig (TCP/TLS control connections) vs PacketConnConfig
   fam : Nat               -- family of the listening address
   unspec : Bool           -- listening on the wildcard address
-  vetoed : List IP        -- peer IPs this listener's PermissionHandler refuses
+  vetoed : List IP        -- peer IPs this listener's PermissionHandler refuses for every client
+  vetoedFor : List (IP × IP) := []   -- (client IP, peer IP) pairs it refuses for that client only
 deriving DecidableEq, Repr
 
 structure Cfg where
@@ -209,10 +210,11 @@ def chanByNum (a : Alloc) (n : Nat) : Option Chan := a.chans.find? (fun c => c.n
 
 def chanByAddr (a : Alloc) (p : Addr) : Option Chan := a.chans.find? (fun c => c.peer == p)
 
-def getLis (c : Cfg) (lid : Nat) : Lis := c.lis.getD lid ⟨false, 1, false, []⟩
+def getLis (c : Cfg) (lid : Nat) : Lis := c.lis.getD lid ⟨false, 1, false, [], []⟩
 
-/-- `Manager.GrantPermission` with this listener's permission handler -/
-def granted (c : Cfg) (lid : Nat) (ip : IP) : Bool := !(getLis c lid).vetoed.contains ip
+/-- `Manager.GrantPermission` with this listener's permission handler: PermissionHandler(clientAddr, peerIP) -/
+def granted (c : Cfg) (k : Key) (ip : IP) : Bool :=
+  !(getLis c k.lid).vetoed.contains ip && !(getLis c k.lid).vetoedFor.contains (k.src.ip, ip)
 
 /-- `allocationLifeTime`: requested·1 s when the attribute decodes and is below the maximum, else the
     configured default -/
@@ -260,13 +262,13 @@ def addPerm (now : Nat) (t : Nat) (ip : IP) (a : Alloc) : Alloc :=
 
 /-- the ForEach loop of CreatePermission: returns the allocation with the permissions installed so far
     and the error code if a peer failed (`none` = every peer was accepted) -/
-def permLoop (c : Cfg) (now : Nat) (lid : Nat) : List (Option Addr) → Alloc → Alloc × Option Nat
+def permLoop (c : Cfg) (now : Nat) (k : Key) : List (Option Addr) → Alloc → Alloc × Option Nat
   | [], a => (a, none)
   | none :: _, a => (a, some 400)
   | some p :: ps, a =>
     if !famOK p.ip a.fam then (a, some 443)
-    else if !granted c lid p.ip then (a, some 403)
-    else permLoop c now lid ps (addPerm now c.permT p.ip a)
+    else if !granted c k p.ip then (a, some 403)
+    else permLoop c now k ps (addPerm now c.permT p.ip a)
 
 /-- `AddChannelBind`'s two conflict tests -/
 def bindConflict (a : Alloc) (num : Nat) (peer : Addr) : Bool :=
@@ -407,22 +409,22 @@ def hCreatePerm (c : Cfg) (s : State) (k : Key) (tid : Nat) (cr : Cred) (peers :
     match ownAlloc s k user with
     | none => {}
     | some a =>
-      match (permLoop c s.now k.lid peers a).2 with
-      | some code => { upd := .set (permLoop c s.now k.lid peers a).1, outs := [errResp k "CreatePermission" code tid] }
+      match (permLoop c s.now k peers a).2 with
+      | some code => { upd := .set (permLoop c s.now k peers a).1, outs := [errResp k "CreatePermission" code tid] }
       | none =>
         if peers.isEmpty then { outs := [errResp k "CreatePermission" 400 tid] }
-        else { upd := .set (permLoop c s.now k.lid peers a).1, outs := [okResp k "CreatePermission" tid] }
+        else { upd := .set (permLoop c s.now k peers a).1, outs := [okResp k "CreatePermission" tid] }
   | r => { outs := authFail k "CreatePermission" tid r }
 
 /-- the checks of `handleChannelBindRequest` after the allocation lookup: an error code or (number, peer) -/
-def bindChecks (c : Cfg) (lid : Nat) (a : Alloc) (num : Attr Nat) (peer : Attr Addr) : Except Nat (Nat × Addr) :=
+def bindChecks (c : Cfg) (k : Key) (a : Alloc) (num : Attr Nat) (peer : Attr Addr) : Except Nat (Nat × Addr) :=
   match num with
   | .val n =>
     if !chanValid n then .error 400
     else match peer with
       | .val p =>
         if !famOK p.ip a.fam then .error 443
-        else if !granted c lid p.ip then .error 401
+        else if !granted c k p.ip then .error 401
         else if bindConflict a n p then .error 400
         else .ok (n, p)
       | _ => .error 400
@@ -434,7 +436,7 @@ def hChanBind (c : Cfg) (s : State) (k : Key) (tid : Nat) (cr : Cred) (num : Att
     match ownAlloc s k user with
     | none => {}
     | some a =>
-      match bindChecks c k.lid a num peer with
+      match bindChecks c k a num peer with
       | .error code => { outs := [errResp k "ChannelBind" code tid] }
       | .ok (n, p) => { upd := .set (addChan s.now c n p a), outs := [okResp k "ChannelBind" tid] }
   | r => { outs := authFail k "ChannelBind" tid r }
@@ -461,15 +463,15 @@ def hChanData (s : State) (k : Key) (raw : Bytes) : HRes :=
 
 /-- the checks of `handleConnectRequest`/`CreateTCPConnection`: `none` = silently dropped, an error code,
     or the peer to register -/
-def connectChecks (c : Cfg) (s : State) (lid : Nat) (a : Alloc) (peer : Attr Addr) (dialOK : Bool) (cid : Nat) :
+def connectChecks (c : Cfg) (s : State) (k : Key) (a : Alloc) (peer : Attr Addr) (dialOK : Bool) (cid : Nat) :
     Option (Except Nat Addr) :=
   match peer with
   | .val p =>
-    if !granted c lid p.ip then some (.error 403)
+    if !granted c k p.ip then some (.error 403)
     else if p.port == 0 then none
     else if dupeConn a p then some (.error 446)
     else if !dialOK then some (.error 447)
-    else if cidUsed s lid cid then none      -- id collision: connection closed again, no response
+    else if cidUsed s k.lid cid then none      -- id collision: connection closed again, no response
     else some (.ok p)
   | _ => some (.error 400)
 
@@ -479,7 +481,7 @@ def hConnect (c : Cfg) (s : State) (k : Key) (tid : Nat) (cr : Cred) (peer : Att
     match ownAlloc s k user with
     | none => {}
     | some a =>
-      match connectChecks c s k.lid a peer dialOK cid with
+      match connectChecks c s k a peer dialOK cid with
       | none => {}
       | some (.error code) => { outs := [errResp k "Connect" code tid] }
       | some (.ok p) =>
